@@ -11,6 +11,7 @@ import (
 
 	"github.com/nuetzliches/hookaido/internal/admin"
 	"github.com/nuetzliches/hookaido/internal/config"
+	"github.com/nuetzliches/hookaido/internal/dispatcher"
 	"github.com/nuetzliches/hookaido/internal/ingress"
 	"github.com/nuetzliches/hookaido/internal/pullapi"
 	"github.com/nuetzliches/hookaido/internal/queue"
@@ -201,3 +202,8 @@ func VerifNewQueueStore(compiled config.Compiled, dbPath string) (queue.Store, f
 
 // SetQueueStore attaches the store the adaptive admission controller reads its pressure signals from (as run() does).
 func (v *VerifRuntime) SetQueueStore(store queue.Store) { v.state.setQueueStore(store) }
+
+// VerifBuildDispatchRoutes builds the push dispatcher's route table from the compiled configuration as run() does.
+func VerifBuildDispatchRoutes(compiled config.Compiled) []dispatcher.RouteConfig {
+	return buildDispatchRoutes(compiled)
+}
